@@ -63,7 +63,8 @@ def r1_declared_used(cx, mods):
     n_ds = 0
     for m in mods:
         for q, fn in m.functions():
-            decos = [d for d in fn.decorator_list if isinstance(d, ast.Call) and call_attr(d) == "datasource"]
+            decos = [d for d in fn.decorator_list if isinstance(d, ast.Call) and (call_attr(d) == "datasource" or call_name(d) == "datasource"
+                                                                                 or str(repo.resolved_id(d.func)).endswith("insights.core.plugins:datasource"))]
             if not decos:
                 continue
             n_ds += 1
